@@ -265,6 +265,12 @@ func finish(chk *Check, c *Ctx, results []*CaseResult) int {
 			inconc[k] += v
 		}
 		for k, v := range r.Counters {
+			if strings.HasPrefix(k, "max_") {
+				if v > counters[k] {
+					counters[k] = v
+				}
+				continue
+			}
 			counters[k] += v
 		}
 		for name, elems := range r.SetsMany {
